@@ -143,7 +143,8 @@ impl CodecCase {
 const LONG_PREFIX: &str = "abcdefghijklmnopqrstuvwxyz0234567890abcdefghijklmnopqrstuvwxyz0234567890abcdefghijk";
 
 fn prefixes() -> Vec<&'static str> {
-    vec!["a", "juno", "cosmwasm", "osmo1x", LONG_PREFIX]
+    // (a human-readable part may hold any printable ASCII character)
+    vec!["a", "juno", "cosmwasm", "osmo1x", "my-chain", "x+y~_.", LONG_PREFIX]
 }
 
 fn codecs() -> Vec<CodecCase> {
